@@ -181,7 +181,7 @@ def enum_cells():
             for v in cell_values(n):
                 cells.append(('uint', n, v, off))
                 cells.append(('set', n, v, off))
-            for v in ((1 << n), (1 << n) + 1, -1):
+            for v in ((1 << n), (1 << n) + 1, -1, 1 << (n + 4), (1 << (n + 7)) + 0x34, (1 << (n + 8)) - 1, (1 << (n + 15)) + 1, 1 << (n + 64)):
                 cells.append(('overflow', n, v, off))
             for v in ((1 << n), (1 << n) + 1, -1, -(1 << (n - 1)), -(1 << n)):
                 cells.append(('set_overflow', n, v, off))
